@@ -205,7 +205,7 @@ func (x *Exec) reflectSet(r, v RValV, what string) {
 }
 
 func (x *Exec) reflectStub(fn *ssa.Function, args []Val) (Val, bool) {
-	name := fn.String()
+	name := x.w.name(fn)
 	if !strings.Contains(name, "reflect.") || fn.Name() == "init" || strings.HasPrefix(name, "internal/reflectlite") || strings.HasPrefix(name, "(internal/reflectlite") {
 		return nil, false
 	}
